@@ -321,7 +321,29 @@ def r09_5_contract_names(ctx):
     args_src = q.assigns_to(ms.node, "args")
     ctx.check(len(args_src) == 1 and u(args_src[0]) == "[str(v) for v in self.subroutine.abi_args.values()]", "R09.5", "method_signature:arg-types", "argument types must be the str() of the declared ABI parameter types in order", ms.where, fact={})
     ctx.check("'type': str(abi.type_spec_from_annotation(val))" in u(sp.node) and "'type': str(self.type_of())" in u(sp.node), "R09.5", "method_spec:types", "the contract's argument/return type strings must be str() of the same type specs", sp.where, fact={})
-    ctx.require_min("R09.5", 5)
+    # ownership: the method object add_method_handler renames is its own - method_spec() hands out a fresh object
+    spec_vars = [n.targets[0].id for n in walk_local(f.node) if isinstance(n, ast.Assign) and len(n.targets) == 1 and isinstance(n.targets[0], ast.Name) and isinstance(n.value, ast.Call) and q.last_name(n.value) == "method_spec"]
+    mutated = sorted({u(t) for n in walk_local(f.node) if isinstance(n, ast.Assign) for t in n.targets if isinstance(t, ast.Attribute) and isinstance(t.value, ast.Name) and t.value.id in spec_vars})
+    if mutated:
+        retained = []
+        for r in q.returns_of(sp.node):
+            v = r.value
+            srcs = [v]
+            if isinstance(v, ast.Name):
+                srcs = q.assigns_to(sp.node, v.id)
+            for x in srcs:
+                if not isinstance(x, ast.Call):
+                    retained.append(f"returns `{u(x)}` (line {r.lineno}), which is not a freshly built object")
+        for n in walk_local(sp.node):
+            if isinstance(n, (ast.Assign, ast.AnnAssign)):
+                tg = n.targets if isinstance(n, ast.Assign) else [n.target]
+                for t in tg:
+                    if isinstance(t, (ast.Attribute, ast.Subscript)) and u(t).split(".")[0].split("[")[0] in ("self", "cls", "ABIReturnSubroutine"):
+                        retained.append(f"keeps state in `{u(t)}` (line {n.lineno})")
+        ctx.check(not retained, "R09.5", "method_spec:fresh-object", f"add_method_handler writes {mutated} on the object it gets from method_spec(); that object must not be shared between registrations, but method_spec {'; '.join(retained[:2])}", sp.where, fact={"mutated_by_router": mutated})
+    else:
+        ctx.ok("R09.5", "method_spec:fresh-object", {"mutated_by_router": []}, sp.where)
+    ctx.require_min("R09.5", 6)
 
 
 def run(ctx):
@@ -331,7 +353,9 @@ def run(ctx):
     from rules import c08 as _c08
 
     _c08.r08_5_registration(ctx)  # one method per selector: duplicate signatures and selector collisions are refused (shared with C08)
-    from rules import c12 as _c12
+    from rules import c12 as _c12, c06 as _c06
+
+    _c06.r06_1_descriptors(ctx)  # static lengths (reference types: one byte) position the members of the 15th-argument tuple (shared with C06)
 
     _c12.r12_2b_named_ints(ctx)  # transaction type names keep their AVM numbers when constants are assembled (shared with C12)
     return (
